@@ -795,7 +795,12 @@ namespace awkward {
           number++;
         }
       }
-      else if (stream.Peek() != 0) {
+      else if (stream.Peek() != 0  ||
+               (!fully_parsed  &&
+                reader.GetParseErrorCode() != rj::kParseErrorDocumentEmpty)) {
+        // nothing was handed to the builder: either garbage in mid-stream or a
+        // malformed/truncated token that ran into the end of the input (only
+        // trailing whitespace is acceptable there)
         throw std::invalid_argument(
           std::string("JSON File error at char ")
           + std::to_string(stream.Tell()) + std::string(": \'")
